@@ -1242,9 +1242,9 @@ class Interp:
             return ArrMethod(v, attr)
         if isinstance(v, (list, dict, set, str, tuple, frozenset)):
             return ArrMethod(v, attr)
-        if isinstance(v, BuiltinV) and attr == "fromkeys" and v.name == "dict":
+        if isinstance(v, BuiltinV) and attr == "fromkeys" and v.name in ("dict", "sc.odict"):
             def fromkeys(it, keys, value=None):
-                ks = it.iterable(keys)
+                ks = list(keys.keys()) if isinstance(keys, dict) else it.iterable(keys)
                 if not isinstance(ks, list) or not all(is_concrete(k) for k in ks):
                     raise Unsupported("dict.fromkeys over symbolic keys")
                 return {k: value for k in ks}
